@@ -141,6 +141,7 @@ def handle : Handler := fun input impl =>
   if impl.startsWith "CRASH" || impl.startsWith "HANG" || impl.startsWith "PANIC" then
     ("-", s!"fail:crash:the engine did not end: {impl.take 200}") else
   if getS o "res" == "noinstr" then ("-", s!"skip:no-instrumented-worker:{getS o "why"}") else
+  if getS o "res" == "giveup" then ("-", s!"skip:not-run:{getS o "why"}") else
   let runaway := getS o "res" == "runaway"
   -- fault plan `panic=k`: the k-th Shoot panics.  The pool then does not end normally (out of the property's scope) —
   -- but what was acquired must still have been released exactly once and never used while not held
